@@ -95,6 +95,7 @@ func c15(c *Ctx) {
 		every = 1
 	}
 	progs = append(progs, bpSweepProgs(c, every)...)
+	multiFunctionFiles(c.Out, progs, "bp", 60)
 	emitPipelineCases(c, progs, []pipeCheck{chkDiff, chkBP, chkBind}, 20, func(p *Prog, ob *Observed) bool {
 		return p.Tags["explicit-bp"] || p.Tags["pressure15"]
 	})
